@@ -6,15 +6,9 @@ export GOFLAGS=-mod=mod GOPROXY=off GOSUMDB=off GOTOOLCHAIN=local CGO_ENABLED=0
 mkdir -p bin evidence replays
 (cd tools/extract && go build -o ../../bin/ ./...)
 # regenerate the model parts that are translated from /repo (never committed)
-python3 - <<'PY'
-import sys; sys.path.insert(0, '.')
-import vlib, json
-names = json.load(open('tools/extract/translators.json'))
-for n, ok, out in vlib.run_translators(names):
-    print('translator', n, 'ok' if ok else 'FAILED: ' + out)
-PY
+for t in tools/extract/*/; do n=$(basename $t); [ -f $t/main.go ] && { bin/$n -repo /repo -out lean || echo "translator $n FAILED"; }; done
 cp /repo/go.sum harness/go.sum
-(cd harness && go build -tags verif -o ../bin/harness .)
+for d in harness/c[0-9]*/; do n=$(basename $d); (cd harness && go build -tags verif -o ../bin/h_$n ./$n) || echo "harness $n failed to build"; done
 # whole Lean library + every driver; a failing module is reported by the check that needs it
-(cd lean && lake build 2>&1 | tail -5; for d in $(grep -o 'name = "drv_[a-z0-9_]*"' lakefile.toml | cut -d'"' -f2); do lake build $d 2>&1 | tail -1; done) || true
+(cd lean && lake build 2>&1 | tail -5; for f in Sky/C[0-9]*/Drv*.lean; do d=$(grep -B1 "root = \"$(echo ${f%.lean} | tr / .)\"" lakefile.toml | grep -o 'drv_[a-z0-9_]*'); [ -n "$d" ] && lake build $d 2>&1 | tail -1; done) || true
 echo setup done
